@@ -14,7 +14,7 @@ UIDTEXTS = [('Alice Example', '', 'alice@example.org'), ('ÃœnÃ¯code NÃ¤mÃ© æ—¥æœ
 T0 = datetime(2020, 1, 1, tzinfo=timezone.utc)
 
 
-def random_shape(r, rich=True):
+def random_shape(r, rich=True, bare=False):
     nu = r.randint(1, 4)
     texts = r.sample(range(len(UIDTEXTS)), nu)
     same = r.random() < 0.4
@@ -23,7 +23,10 @@ def random_shape(r, rich=True):
              'third_direct': r.choice([None, None, 'exportable', 'local', 'both']), 'sub_local_cert': r.random() < 0.15}
     for t in texts:
         shape['uids'].append({'text': t, 'third': r.choice([0, 0, 1, 2, 3]), 'revoked': r.random() < 0.2, 'nonexp': r.random() < 0.3, 'exp_true': r.random() < 0.3,
-                              'attest': r.random() < 0.2, 'recert': r.random() < 0.3, 'primary': r.choice([None, True, False])})
+                              'attest': r.random() < 0.2, 'recert': r.random() < 0.3, 'primary': r.choice([None, True, False]),
+                              # an identity nobody has (exportably) certified: it is still part of the key
+                              'bare': bare and len(shape['uids']) > 0 and r.random() < 0.18})
+    shape['ua_bare'] = bare and bool(shape['uas']) and r.random() < 0.3
     for s in r.sample(SUBPOOL, r.randint(0, 3)):
         shape['subs'].append({'name': s, 'revoked': r.random() < 0.25})
     return shape
@@ -39,6 +42,7 @@ def build(shape):
     from pgpy.constants import KeyFlags, SignatureType, HashAlgorithm
     info = {'nonexportable': [], 'exportable': []}
     tick = [0]
+    later = []
 
     def when():
         if not shape.get('same_second'):
@@ -55,6 +59,10 @@ def build(shape):
             kw = {'usage': {KeyFlags.Sign, KeyFlags.Certify}, 'hashes': [HashAlgorithm.SHA256], 'created': when()}
             if u.get('primary') is not None:
                 kw['primary'] = u['primary']
+            if u.get('bare'):
+                # added once everything else is signed: PGPy's signing path reads the preferences of the first identity's self-signature
+                later.append((uid, u))
+                continue
             k.add_uid(uid, **kw)
             if u.get('recert'):
                 uid |= k.certify(uid, SignatureType.Positive_Cert, usage={KeyFlags.Sign, KeyFlags.Certify, KeyFlags.Authentication}, hashes=[HashAlgorithm.SHA512], created=when())
@@ -75,7 +83,10 @@ def build(shape):
                 uid |= k.revoke(uid, created=when())
         for n in range(shape.get('uas', 0)):
             ua = pgpy.PGPUID.new(bytearray(sigwork.JPEG + bytes([n]) * (n + 1)))
-            k.add_uid(ua, created=when())
+            if shape.get('ua_bare') and n == 0:
+                later.append((ua, {}))
+            else:
+                k.add_uid(ua, created=when())
         if pm['alg'] == 18:
             raise ValueError('ECDH primary')
         for sdesc in shape['subs']:
@@ -102,6 +113,12 @@ def build(shape):
             k |= k.revoker(certifier(CERTIFIERS[0]).pubkey, created=when())
         if shape.get('key_revoked'):
             k |= k.revoke(k, created=when())
+        for uid, u in later:
+            k.add_uid(uid, selfsign=False)
+            for j in range(min(u.get('third', 0), 1) if u.get('nonexp') else 0):
+                s = certifier(CERTIFIERS[j]).certify(uid, SignatureType.Generic_Cert, exportable=False, created=when())
+                uid |= s
+                info['nonexportable'].append(bytes(s))
     return k, info
 
 
